@@ -143,111 +143,7 @@ func runC05(c *Ctx) {
 	}
 
 	// ---- BeginEexec: white space, hex detection, lead bytes
-	{
-		fd := c.funcDecl("postscript", "scanner", "BeginEexec")
-		fname := "postscript.(*scanner).BeginEexec"
-		peek := c.method("postscript", "scanner", "Peek")
-		_ = peek
-		// the first for loop: contains an if … break over a byte variable obtained from Peek
-		var wsIf *ast.IfStmt
-		var wsVar types.Object
-		var hexIf *ast.IfStmt
-		var hexVar types.Object
-		ast.Inspect(fd.Body, func(n ast.Node) bool {
-			switch n := n.(type) {
-			case *ast.ForStmt:
-				if wsIf == nil && n.Cond == nil {
-					for _, st := range n.Body.List {
-						if ifs, ok := st.(*ast.IfStmt); ok && len(ifs.Body.List) == 1 {
-							if br, ok := ifs.Body.List[0].(*ast.BranchStmt); ok && br.Tok == token.BREAK {
-								if v := singleByteVar(info, ifs.Cond); v != nil {
-									wsIf, wsVar = ifs, v
-								}
-							}
-						}
-					}
-				}
-			case *ast.RangeStmt:
-				if hexIf == nil {
-					if id, ok := n.Value.(*ast.Ident); ok {
-						v := info.ObjectOf(id)
-						for _, st := range n.Body.List {
-							if ifs, ok := st.(*ast.IfStmt); ok {
-								if vv := singleByteVar(info, ifs.Cond); vv == v {
-									hexIf, hexVar = ifs, v
-								}
-							}
-						}
-					}
-				}
-			}
-			return true
-		})
-		if wsIf == nil {
-			c.fail("EEXEC-WS", fname, "white space before the ciphertext", fd.Pos(), "the loop skipping white space before the encrypted data was not found")
-		} else {
-			brk, err := byteSet(info, wsIf.Cond, wsVar)
-			var skip [256]bool
-			for i := range brk {
-				skip[i] = !brk[i]
-			}
-			want := setOf(func(b int) bool { return b == ' ' || b == '\t' || b == '\r' || b == '\n' })
-			c.check(err == nil && skip == want, "EEXEC-WS", fname, "white space skipped before the ciphertext = {space, tab, CR, LF}", wsIf.Pos(), setString(skip),
-				fmt.Sprintf("the bytes skipped before the ciphertext are {%s}, the specification says {9,10,13,32}: a binary section whose first cipher byte is another control character would lose it (%v)", setString(skip), err))
-		}
-		if hexIf == nil {
-			c.fail("EEXEC-HEXDETECT", fname, "hex/binary detection", fd.Pos(), "the loop classifying the first bytes as hexadecimal digits was not found")
-		} else {
-			nonHex, err := byteSet(info, hexIf.Cond, hexVar)
-			want := setOf(func(b int) bool { return !isHexDigit(b) })
-			c.check(err == nil && nonHex == want, "EEXEC-HEXDETECT", fname, "binary iff one of the first bytes is not in [0-9A-Fa-f]", hexIf.Pos(), "non-hex set = complement of [0-9A-Fa-f]",
-				fmt.Sprintf("the set of bytes that make the section binary is {%s}, expected the complement of the hexadecimal digits (%v)", setString(nonHex), err))
-			// the assignment under the condition sets the binary flag
-		}
-		// number of peeked bytes and of discarded bytes
-		f := c.method("postscript", "scanner", "BeginEexec")
-		peekN := c.method("postscript", "scanner", "PeekN")
-		okPeek := false
-		for _, call := range staticCalls(f, peekN) {
-			if _, isParam := origin(call.Common().Args[1]).(*ssa.Parameter); isParam {
-				okPeek = true
-			}
-			if k, isC := constInt(call.Common().Args[1]); isC && k == 4 {
-				okPeek = true
-			}
-		}
-		eexecFn := c.registry().op("systemdict", "eexec")
-		okArg := false
-		for _, call := range staticCalls(eexecFn, f) {
-			if k, isC := constInt(call.Common().Args[1]); isC && k == 4 {
-				okArg = true
-			}
-		}
-		c.check(okPeek && okArg, "EEXEC-HEXDETECT", fname, "the first four bytes are inspected", fd.Pos(), "PeekN(ivLen) with ivLen = 4", "hex/binary detection does not look at exactly the first four bytes")
-		// discard loop: counted loop with constant bound 4 calling Next
-		next := c.method("postscript", "scanner", "Next")
-		okSkip := false
-		for _, call := range staticCalls(f, next) {
-			if !inCycle(call.Block()) {
-				continue
-			}
-			for b := range loopBlocks(call.Block()) {
-				if ifi, ok := b.Instrs[len(b.Instrs)-1].(*ssa.If); ok {
-					if m, ok := asCmp(cond{ifi.Cond, true, b}); ok && m.op == token.LSS {
-						if k, isC := constInt(m.y); isC && k == 4 {
-							if phi, ok := m.x.(*ssa.Phi); ok && len(phi.Edges) == 2 {
-								okSkip = true
-							}
-						}
-						if _, isParam := origin(m.y).(*ssa.Parameter); isParam && okArg {
-							okSkip = true
-						}
-					}
-				}
-			}
-		}
-		c.check(okSkip, "EEXEC-LEADBYTES", fname, "exactly four decrypted lead bytes are discarded", fd.Pos(), "counted loop i < 4 around Next()", "BeginEexec does not discard exactly four decrypted bytes")
-	}
+	c.beginEexecTable()
 
 	// ---- hex classifiers
 	c.hexClassifier("postscript", "scanner", "ReadHexString", true)
@@ -283,118 +179,133 @@ func singleByteVar(info *types.Info, e ast.Expr) types.Object {
 
 // hexClassifier evaluates the tagless switch of a hex reader for all bytes.
 func (c *Ctx) hexClassifier(pkg, recv, name string, hasTerminator bool) {
-	fd := c.funcDecl(pkg, recv, name)
-	info := c.info(pkg)
+	// The function is evaluated on the SSA form with an input that starts with the byte under
+	// test followed by the digits 1 2 (and the terminator '>'); what comes back tells how the
+	// byte was classified: skipped (the result is 0x12), a digit of value v (0xv1 …), or an error.
+	fn := c.method(pkg, recv, name)
 	fname := pkg + ".(*" + recv + ")." + name
-	var sw *ast.SwitchStmt
-	ast.Inspect(fd.Body, func(n ast.Node) bool {
-		if s, ok := n.(*ast.SwitchStmt); ok && s.Tag == nil && sw == nil && len(s.Body.List) >= 4 {
-			sw = s
+	scT := c.typeObj(pkg, recv)
+	modeF := c.fld("scanner.eexec")
+	var lead []byte
+	classify := func(b byte) (kind string, val int64, why string) {
+		input := append(append([]byte{}, lead...), b, '1', '2', '>')
+		if len(lead) > 0 {
+			input = append(append([]byte{}, lead...), b, '2', '>')
 		}
-		return true
-	})
-	if sw == nil {
-		c.fail("HEX-CLASS", fname, "byte classifier", fd.Pos(), "the switch classifying input bytes was not found")
-		return
-	}
-	// the byte variable: the one compared in most cases
-	var bvar types.Object
-	for _, cc := range sw.Body.List {
-		for _, e := range cc.(*ast.CaseClause).List {
-			if v := singleByteVar(info, e); v != nil {
-				bvar = v
+		pos := 0
+		ev := &ssaEval{c: c, bind: map[ssa.Value]sv{}, mem: map[string]sv{}}
+		ev.noInline = func(f *ssa.Function) bool {
+			return f.Signature.Recv() != nil && pointsTo(f.Signature.Recv().Type(), scT)
+		}
+		ev.load = func(ld *ssa.UnOp, addr sv) (sv, bool) {
+			if strings.HasSuffix(addr.s, "."+modeF) {
+				return intV(1), true // hexadecimal form
 			}
-		}
-	}
-	if bvar == nil {
-		c.fail("HEX-CLASS", fname, "byte classifier", sw.Pos(), "no byte variable found in the classifier")
-		return
-	}
-	// error variables are nil on the classified path
-	errVars := map[types.Object]bool{}
-	ast.Inspect(fd.Body, func(n ast.Node) bool {
-		if id, ok := n.(*ast.Ident); ok {
-			if v, ok := info.ObjectOf(id).(*types.Var); ok && types.Identical(v.Type(), types.Universe.Lookup("error").Type()) {
-				errVars[v] = true
+			if strings.HasPrefix(addr.s, "global:") {
+				return symV(addr.s[strings.LastIndex(addr.s, ".")+1:]), true
 			}
+			return symV("v:" + addr.s), true
 		}
-		return true
-	})
-	var got [256]string
-	var evalErrMsg string
-	for b := 0; b < 256; b++ {
-		func() {
-			defer func() {
-				if r := recover(); r != nil {
-					if e, ok := r.(evalErr); ok {
-						evalErrMsg = e.msg
-						got[b] = "undecided"
-						return
+		ev.call = func(call ssa.CallInstruction, args []sv) (sv, bool) {
+			if call == nil {
+				return sv{}, false
+			}
+			sc := call.Common().StaticCallee()
+			if sc == nil {
+				return sv{}, false
+			}
+			if sc.Signature.Recv() != nil && pointsTo(sc.Signature.Recv().Type(), scT) {
+				res := sc.Signature.Results()
+				switch {
+				case res.Len() == 2 && sc.Signature.Params().Len() == 0: // next byte
+					if pos >= len(input) {
+						return sv{k: svTuple, tup: []sv{intV(0), symV("EOF")}}, true
 					}
-					panic(r)
+					pos++
+					return sv{k: svTuple, tup: []sv{intV(int64(input[pos-1])), {k: svNil}}}, true
+				case res.Len() == 1: // the opening delimiter was there
+					return sv{k: svNil}, true
 				}
-			}()
-			env := &aenv{info: info, vars: map[types.Object]aval{bvar: {i: int64(b)}}}
-			for v := range errVars {
-				env.vars[v] = aval{i: 0}
+				return sv{}, true
 			}
-			env.vars[types.Universe.Lookup("nil")] = aval{i: 0}
-			var out outcome
-			left := env.stmt(sw, true, &out)
-			switch {
-			case left && out.kind == "continue":
-				got[b] = "skip"
-			case left && out.kind == "break":
-				got[b] = "end"
-			case left && out.kind == "return":
-				got[b] = "error"
-			default:
-				// which variable was assigned a digit value?
-				got[b] = "other"
-				for _, st := range out.stmts {
-					if as, ok := st.(*ast.AssignStmt); ok && len(as.Lhs) == 1 {
-						if id, ok := as.Lhs[0].(*ast.Ident); ok {
-							if v, has := env.vars[info.ObjectOf(id)]; has {
-								got[b] = fmt.Sprintf("digit %d", v.i)
-							}
-						}
-					}
-				}
+			if strings.HasPrefix(callName(call), "fmt.") {
+				return symV("errorvalue"), true
 			}
-		}()
+			return sv{}, false
+		}
+		ev.oracle = func(op token.Token, x, y sv) (bool, bool) {
+			if x.k == svNil && y.k == svNil {
+				return op == token.EQL, true
+			}
+			if (x.k == svNil) != (y.k == svNil) {
+				return op == token.NEQ, true
+			}
+			return false, false
+		}
+		ret := ev.runFunc(fn, []sv{{k: svAddr, s: "s"}})
+		if len(ret) != 2 {
+			return "?", 0, ev.why
+		}
+		if ret[1].k != svNil {
+			return "error", 0, ""
+		}
+		switch r := ret[0]; {
+		case r.k == svInt:
+			val = r.i
+		case r.k == svString && len(r.s) >= 1:
+			val = int64(r.s[0])
+		case r.k == svList:
+			if el, ok := ev.elems(r); ok && len(el) >= 1 && el[0].k == svInt {
+				val = el[0].i
+			} else {
+				return "?", 0, "result not evaluable"
+			}
+		default:
+			return "?", 0, "result " + ev.render(r) + " " + ev.why
+		}
+		switch {
+		case val == 0x12:
+			return "skip", 0, ""
+		case val&0x0f == 1:
+			return "digit", val >> 4, ""
+		}
+		return "?", val, fmt.Sprintf("unexpected result %#x", val)
 	}
 	var diffs []string
 	for b := 0; b < 256; b++ {
-		want := hexOracle[b]
 		if hasTerminator && b == '>' {
-			want = "end"
+			continue
 		}
-		if got[b] != want {
-			diffs = append(diffs, fmt.Sprintf("byte %d: %s (expected %s)", b, got[b], want))
-		}
-	}
-	detail := ""
-	if len(diffs) > 0 {
-		detail = joinMax(diffs, 4)
-		if evalErrMsg != "" {
-			detail += " [" + evalErrMsg + "]"
-		}
-	}
-	c.check(len(diffs) == 0, "HEX-CLASS", fname, "every byte value classified as the specification says (skip ≤ 32, [0-9A-Fa-f] with its value, error otherwise)", sw.Pos(), "256 byte values evaluated",
-		"the hexadecimal classifier deviates from the specification: "+detail)
-	// white space may occur at any position: the skip case does not depend on other state
-	for _, cc := range sw.Body.List {
-		cl := cc.(*ast.CaseClause)
-		if len(cl.Body) == 1 {
-			if br, ok := cl.Body[0].(*ast.BranchStmt); ok && br.Tok == token.CONTINUE {
-				for _, e := range cl.List {
-					if singleByteVar(info, e) == nil {
-						c.fail("HEX-CLASS", fname, "white space accepted at every position", cl.Pos(), "the white-space case `"+types.ExprString(e)+"` depends on more than the byte itself: white space between the two digits of a byte (or elsewhere) is not skipped")
-					}
-				}
+		k, v, why := classify(byte(b))
+		want, wv := "error", int64(0)
+		switch {
+		case b <= 32:
+			want = "skip"
+		case isHexDigit(b):
+			want = "digit"
+			switch {
+			case b >= '0' && b <= '9':
+				wv = int64(b - '0')
+			case b >= 'a':
+				wv = int64(b-'a') + 10
+			default:
+				wv = int64(b-'A') + 10
 			}
 		}
+		if k != want || v != wv {
+			diffs = append(diffs, fmt.Sprintf("byte %d is classified as %s (value %d) %s, the specification says %s (value %d)", b, k, v, why, want, wv))
+		}
 	}
+	// white space is skipped between the two digits of a byte as well
+	lead = []byte{'1'}
+	for b := 0; b <= 32; b++ {
+		if k, _, _ := classify(byte(b)); k != "skip" {
+			diffs = append(diffs, fmt.Sprintf("byte %d between the two digits of a byte is not skipped", b))
+		}
+	}
+	lead = nil
+	c.check(len(diffs) == 0, "HEX-CLASS", fname, "every byte value classified as the specification says (skip ≤ 32, [0-9A-Fa-f] with its value, error otherwise)", fn.Pos(), "256 byte values evaluated, white space also between digits",
+		"hexadecimal de-armouring: "+joinMax(diffs, 3))
 }
 
 func (c *Ctx) eexecOperator() {
@@ -440,7 +351,35 @@ func (c *Ctx) eexecOperator() {
 			}
 		}
 	})
-	endE := c.method("postscript", "scanner", "EndEexec")
+	// decryption is switched off by storing 0 into the scanner's mode field, here or in a helper
+	scT := c.typeObj("postscript", "scanner")
+	modeOff := func(ins ssa.Instruction) bool {
+		st, ok := ins.(*ssa.Store)
+		if !ok || !isFieldAddr(st.Addr, scT, c.fld("scanner.eexec")) {
+			return false
+		}
+		k, isC := constInt(st.Val)
+		return isC && k == 0
+	}
+	var endSites []ssa.Instruction
+	eachInstr(f, func(ins ssa.Instruction) {
+		if modeOff(ins) {
+			endSites = append(endSites, ins)
+		}
+		if call, ok := ins.(*ssa.Call); ok {
+			if g := call.Common().StaticCallee(); g != nil && c.inModule(g) && len(g.Blocks) > 0 && g != ia.execScanner {
+				has := false
+				eachInstr(g, func(i2 ssa.Instruction) {
+					if modeOff(i2) {
+						has = true
+					}
+				})
+				if has {
+					endSites = append(endSites, ins)
+				}
+			}
+		}
+	})
 	run := staticCalls(f, ia.execScanner)
 	if len(run) != 1 {
 		c.fail("EEXEC-OP", fname, "encrypted section executed", f.Pos(), "expected one call of executeScanner in eexec")
@@ -455,8 +394,8 @@ func (c *Ctx) eexecOperator() {
 		}
 		nret++
 		ended := false
-		for _, call := range staticCalls(f, endE) {
-			if dominatesInstr(call, r) {
+		for _, site := range endSites {
+			if dominatesInstr(site, r) && dominatesInstr(run[0], site) {
 				ended = true
 			}
 		}
@@ -539,4 +478,140 @@ func (c *Ctx) scannerOperators(ia *interpAnchors, reg *registry, rule string, op
 			c.check(strings.Join(seq, ",") == "Next,Read", rule, c.fname(g), "readstring skips exactly one delimiter byte, then reads raw bytes", g.Pos(), "Next, Read", "readstring calls "+strings.Join(seq, ",")+" on the scanner; binary data starting with white space or `%` would be misread unless exactly one byte is skipped")
 		}
 	}
+}
+
+// beginEexecTable evaluates scanner.BeginEexec on the SSA form for every byte value in the
+// position of the first byte after `eexec` (is it skipped as white space?) and in each of the
+// four positions inspected for the hex/binary decision, and counts the lead bytes discarded.
+func (c *Ctx) beginEexecTable() {
+	fn := c.method("postscript", "scanner", "BeginEexec")
+	fname := "postscript.(*scanner).BeginEexec"
+	scT := c.typeObj("postscript", "scanner")
+	modeF := c.fld("scanner.eexec")
+	eexecFn := c.registry().op("systemdict", "eexec")
+	// the number of lead bytes the operator asks for
+	ivLen := int64(-1)
+	for _, call := range staticCalls(eexecFn, fn) {
+		if k, isC := constInt(call.Common().Args[1]); isC {
+			ivLen = k
+		}
+	}
+	type outcome struct {
+		skipped  bool   // the first byte was skipped as white space
+		mode     int64  // value stored into the mode field
+		peeked   int64  // number of bytes asked of the look-ahead
+		consumed int    // byte reads after the decision
+		why      string
+	}
+	run := func(first byte, window string) outcome {
+		var o outcome
+		o.mode = -1
+		ev := &ssaEval{c: c, bind: map[ssa.Value]sv{}, mem: map[string]sv{}}
+		ev.noInline = func(f *ssa.Function) bool {
+			return f.Signature.Recv() != nil && pointsTo(f.Signature.Recv().Type(), scT)
+		}
+		ev.load = func(ld *ssa.UnOp, addr sv) (sv, bool) {
+			if strings.HasSuffix(addr.s, "."+modeF) {
+				return intV(0), true
+			}
+			return symV("v:" + addr.s), true
+		}
+		nPeek := 0
+		decided := false
+		ev.call = func(call ssa.CallInstruction, args []sv) (sv, bool) {
+			if call == nil {
+				return sv{}, false
+			}
+			sc := call.Common().StaticCallee()
+			if sc == nil || sc.Signature.Recv() == nil || !pointsTo(sc.Signature.Recv().Type(), scT) {
+				return sv{}, false
+			}
+			res := sc.Signature.Results()
+			par := sc.Signature.Params()
+			switch {
+			case res.Len() == 2 && par.Len() == 0: // a single byte: look-ahead before the decision, reads after it
+				if decided {
+					o.consumed++
+					return sv{k: svTuple, tup: []sv{intV(0), {k: svNil}}}, true
+				}
+				nPeek++
+				b := first
+				if nPeek > 1 {
+					b = 'X'
+				}
+				return sv{k: svTuple, tup: []sv{intV(int64(b)), {k: svNil}}}, true
+			case res.Len() == 0 && par.Len() == 0 && !decided: // skip one byte
+				if nPeek == 1 {
+					o.skipped = true
+				}
+				return sv{}, true
+			case res.Len() == 1 && par.Len() == 1: // look-ahead of n bytes
+				if len(args) == 2 && args[1].k == svInt {
+					o.peeked = args[1].i
+				}
+				decided = true
+				return sv{k: svString, s: window}, true
+			}
+			return sv{}, false
+		}
+		ret := ev.runFunc(fn, []sv{{k: svAddr, s: "s"}, intV(ivLen)})
+		o.why = ev.why
+		if len(ret) != 1 || ret[0].k != svNil {
+			o.why += fmt.Sprintf(" returns %v", ret)
+		}
+		for _, ef := range ev.effects {
+			if ef.what == "store" && strings.HasSuffix(ef.addr, "."+modeF) && ef.args[0].k == svInt {
+				o.mode = ef.args[0].i
+			}
+		}
+		return o
+	}
+	// white space before the ciphertext
+	var skip [256]bool
+	bad := ""
+	for b := 0; b < 256; b++ {
+		o := run(byte(b), "0000")
+		if o.mode < 0 {
+			bad = fmt.Sprintf("byte %d: BeginEexec could not be evaluated (%s)", b, o.why)
+			break
+		}
+		skip[b] = o.skipped
+	}
+	wantWS := setOf(func(b int) bool { return b == ' ' || b == '\t' || b == '\r' || b == '\n' })
+	c.check(bad == "" && skip == wantWS, "EEXEC-WS", fname, "white space skipped before the ciphertext = {space, tab, CR, LF}", fn.Pos(), setString(skip),
+		fmt.Sprintf("the bytes skipped before the ciphertext are {%s}, the specification says {9,10,13,32}: a binary section whose first cipher byte is another control character would lose it %s", setString(skip), bad))
+	// hex / binary
+	hexMode, binMode := int64(-1), int64(-1)
+	if o := run('X', "0000"); true {
+		hexMode = o.mode
+	}
+	if o := run('X', "\x80\x80\x80\x80"); true {
+		binMode = o.mode
+	}
+	bad = ""
+	var nonHex [256]bool
+	for pos := 0; pos < 4 && bad == ""; pos++ {
+		for b := 0; b < 256; b++ {
+			w := []byte("0a9F")
+			w[pos] = byte(b)
+			o := run('X', string(w))
+			isBin := o.mode == binMode
+			if o.mode != binMode && o.mode != hexMode {
+				bad = fmt.Sprintf("byte %d in position %d: mode %d", b, pos, o.mode)
+				break
+			}
+			if pos == 0 {
+				nonHex[b] = isBin
+			} else if nonHex[b] != isBin {
+				bad = fmt.Sprintf("byte %d is judged differently in position %d than in position 0", b, pos)
+				break
+			}
+		}
+	}
+	wantNH := setOf(func(b int) bool { return !isHexDigit(b) })
+	c.check(bad == "" && hexMode != binMode && hexMode > 0 && binMode > 0 && nonHex == wantNH, "EEXEC-HEXDETECT", fname, "binary iff one of the first bytes is not in [0-9A-Fa-f]", fn.Pos(), "4 positions × 256 byte values evaluated",
+		fmt.Sprintf("the set of bytes that make the section binary is {%s}, expected the complement of the hexadecimal digits %s", setString(nonHex), bad))
+	o := run('X', "0000")
+	c.check(ivLen == 4 && o.peeked == 4, "EEXEC-HEXDETECT", fname, "the first four bytes are inspected", fn.Pos(), fmt.Sprintf("look-ahead of %d bytes", o.peeked), fmt.Sprintf("hex/binary detection looks at %d bytes (the operator passes %d), the specification says 4", o.peeked, ivLen))
+	c.check(o.consumed == 4, "EEXEC-LEADBYTES", fname, "exactly four decrypted lead bytes are discarded", fn.Pos(), fmt.Sprintf("%d reads after the decision", o.consumed), fmt.Sprintf("BeginEexec discards %d decrypted bytes, the specification says 4", o.consumed))
 }
